@@ -6,7 +6,7 @@ there against direct quadrature, the radial Poisson equation and r V -> Q).  No 
 
 Sub-checks
   pointwise     library s/p potential vs the mp potential of its documented density for alpha in [1e-6, 1e6] and
-                r in {0, [0,1e-12), +-4 ulp around 1e-12, log-uniform 1e-14..1e8, r ~ 1/sqrt(alpha), far field};
+                r in {0, [0,1e-12), +-4 ulp around 1e-12, log-uniform 1e-14..1e8, r ~ 1/sqrt(alpha), far field, 1e8..1e300};
                 scalar / array / list input; r V = Q in the far field; unnormalised = Q_unnorm x normalised.
   switch        jump of the library value across the small-r switch (0, just below, at, just above 1e-12) < 1e-10 rel.
   poisson_fd    (r V)'' = -4 pi r rho(r) by a second central difference of the float64 library values (no mpmath).
@@ -29,7 +29,7 @@ PROPERTY = "C17"
 RULE = (
     "pointwise/switch/poisson_fd: Hypothesis draws (kind s|p, normalised?, alpha = 10^U(-6,6) or an edge value, a list of "
     "radii from the classes zero / below-switch [0,1e-12) / +-4 ulp around 1e-12 / log-uniform 1e-14..1e8 / "
-    "x/sqrt(alpha) with x in 1e-3..40 / far field x>=7, input as scalar, array or list); every case is non-trivial "
+    "x/sqrt(alpha) with x in 1e-3..40 / far field x>=7 / 1e8..1e300, input as scalar, array or list); every case is non-trivial "
     "when at least one radius is compared with the 50-digit mp potential (all are), classes are histogrammed per radius. "
     "multicentre: 1-6 points, 1-4 s centres, 0-3 p centres, signed coefficients, alpha 10^U(-3,3), points optionally "
     "placed on / within 1e-13 of a centre; non-trivial = at least two functions with different exponents or centres. "
@@ -98,7 +98,7 @@ def _r_class(alpha, r):
         return "x~1"
     if x < 7:
         return "x<7"
-    return "far"
+    return "far" if r <= 1e8 else "r>1e8"
 
 
 def _alpha_class(alpha):
@@ -156,6 +156,7 @@ def _r_for(alpha):
         st.floats(-14.0, 8.0).map(lambda e: float(10.0**e)),
         st.floats(-3.0, 1.6).map(lambda e: float(10.0**e * ell)),
         st.floats(0.85, 4.0).map(lambda e: float(10.0**e * ell)),
+        st.floats(8.0, 300.0).map(lambda e: float(10.0**e)),
     )
 
 
